@@ -216,6 +216,9 @@ structure Obs where
   /-- attributes found on the operands after the comparisons that are not fields (comparing is pure:
       `_make_order`'s closures store nothing on the instances) -/
   residue   : List String
+  /-- applications of key functions during each direct call, in order: `name:view` (the key of every
+      keyed order field is applied to self's value, then to other's, on every comparison) -/
+  keys      : TrQ
   deriving DecidableEq, Repr, FromJson, ToJson, Inhabited
 
 /-! ### `_determine_attrib_eq_order(cmp, eq, order, default_eq=True)` -/
@@ -440,6 +443,18 @@ def binop (c : Case) (op : Op) (lIsX : Bool) : Res :=
     else if reflected != .NI then reflected
     else .typeErr
 
+/-- the order fields that go through a key function, as `name:view`, in tuple order -/
+def keyTags (c : Case) (baseOnly : Bool) : List String :=
+  ((attrList c baseOnly).filter (fun f => f.orderPart && f.orderView != .raw)).map
+    (fun f => f.name ++ f.orderView.suffix)
+
+/-- key applications of one method call: `attrs_to_tuple(self)` then `attrs_to_tuple(other)`, after
+    the class test; nothing is remembered between calls -/
+def keyCalls (c : Case) (impl : Impl) : List String :=
+  match impl with
+  | .gen baseOnly => if rhsKls c.rhs == .C then keyTags c baseOnly ++ keyTags c baseOnly else []
+  | _ => []
+
 def directCall (c : Case) (op : Op) : Res × List String := callImpl c (resolve c .C op) op true
 
 def model (c : Case) : Obs :=
@@ -450,7 +465,9 @@ def model (c : Case) : Obs :=
       trace := ⟨(directCall c .lt).2, (directCall c .le).2, (directCall c .gt).2, (directCall c .ge).2⟩,
       ops := ⟨binop c .lt true, binop c .le true, binop c .gt true, binop c .ge true⟩,
       rops := ⟨binop c .lt false, binop c .le false, binop c .gt false, binop c .ge false⟩,
-      residue := [] }
+      residue := [],
+      keys := ⟨keyCalls c (resolve c .C .lt), keyCalls c (resolve c .C .le), keyCalls c (resolve c .C .gt),
+               keyCalls c (resolve c .C .ge)⟩ }
   else
     { clsErr := clsErr c, fieldErrs := fieldErrs c, built := false,
       status := ⟨.dflt, .dflt, .dflt, .dflt⟩,
@@ -458,6 +475,7 @@ def model (c : Case) : Obs :=
       trace := ⟨[], [], [], []⟩,
       ops := ⟨.other, .other, .other, .other⟩,
       rops := ⟨.other, .other, .other, .other⟩,
-      residue := [] }
+      residue := [],
+      keys := ⟨[], [], [], []⟩ }
 
 end Attrs.C09
